@@ -209,7 +209,7 @@ func provablyNonNil(v ssa.Value, b *ssa.BasicBlock, depth int) bool {
 		if g.True != trueNonNil {
 			continue
 		}
-		if sameValue(an.Unwrap(x), v) {
+		if sameValue(an.Unwrap(x), v) || an.Resolve(an.Unwrap(x)) == v {
 			return true
 		}
 	}
